@@ -146,12 +146,17 @@ pub fn c15_set_clone<const N: usize>() {
 
 // ------------------------------------------------------------------------------------------ C16
 /// source of (key, value) pairs that records how it is consumed
-pub struct PairSrc<const L: usize> { pub items: [Option<(Tok, Tok)>; L], pub pos: usize, pub len: usize, pub pulled: usize }
+pub struct PairSrc<const L: usize> { pub items: [Option<(Tok, Tok)>; L], pub pos: usize, pub len: usize, pub pulled: usize, pub slack_lo: usize, pub slack_hi: Option<usize> }
 impl<const L: usize> Iterator for PairSrc<L> {
     type Item = (Tok, Tok);
     fn next(&mut self) -> Option<(Tok, Tok)> {
         self.pulled += 1;
         if self.pos < self.len && self.pos < L { let i = self.pos; self.pos += 1; self.items[i].take() } else { None }
+    }
+    /// any size_hint the Iterator contract allows: lower <= remaining <= upper (or no upper bound); the slack is solver-chosen
+    fn size_hint(&self) -> (usize, Option<usize>) {
+        let rem = self.len - self.pos;
+        (rem.saturating_sub(self.slack_lo), self.slack_hi.map(|s| rem.saturating_add(s)))
     }
 }
 
@@ -162,7 +167,7 @@ pub fn c16_from_iter<const N: usize, const L: usize>() {
     let len = vf::any_usize();
     vf::assume(len <= L);
     let mut md = Model::<N>::new();
-    let mut src = PairSrc::<L> { items: [const { None }; L], pos: 0, len, pulled: 0 };
+    let mut src = PairSrc::<L> { items: [const { None }; L], pos: 0, len, pulled: 0, slack_lo: vf::any_usize(), slack_hi: if vf::any_bool() { Some(vf::any_usize()) } else { None } };
     let mut overflow_at = usize::MAX; // index of the first item that does not fit
     let mut i = 0;
     while i < L {
@@ -220,7 +225,7 @@ pub fn c16_set_from<const N: usize, const L: usize>() {
     let len = vf::any_usize();
     vf::assume(len <= L);
     let mut md = Model::<N>::new();
-    let mut src = crate::g_misc::KeySrc::<L> { items: [const { None }; L], pos: 0, len, pulled: 0 };
+    let mut src = crate::g_misc::KeySrc::<L> { items: [const { None }; L], pos: 0, len, pulled: 0, slack_lo: vf::any_usize(), slack_hi: if vf::any_bool() { Some(vf::any_usize()) } else { None } };
     let mut i = 0;
     while i < L {
         let k = vf::any_u8();
@@ -234,12 +239,16 @@ pub fn c16_set_from<const N: usize, const L: usize>() {
     drop(src);
     finish_set(s);
 }
-pub struct KeySrc<const L: usize> { pub items: [Option<Tok>; L], pub pos: usize, pub len: usize, pub pulled: usize }
+pub struct KeySrc<const L: usize> { pub items: [Option<Tok>; L], pub pos: usize, pub len: usize, pub pulled: usize, pub slack_lo: usize, pub slack_hi: Option<usize> }
 impl<const L: usize> Iterator for KeySrc<L> {
     type Item = Tok;
     fn next(&mut self) -> Option<Tok> {
         self.pulled += 1;
         if self.pos < self.len && self.pos < L { let i = self.pos; self.pos += 1; self.items[i].take() } else { None }
+    }
+    fn size_hint(&self) -> (usize, Option<usize>) {
+        let rem = self.len - self.pos;
+        (rem.saturating_sub(self.slack_lo), self.slack_hi.map(|s| rem.saturating_add(s)))
     }
 }
 pub fn c16_set_from_array<const N: usize>() {
